@@ -32,6 +32,7 @@ var substTable = map[string]string{
 	"(*github.com/tadglines/go-pkgs/crypto/srp.ServerSession).VerifyClientAuthenticator": "SRPVerifyClientAuthenticator",
 	"(*github.com/tadglines/go-pkgs/crypto/srp.ServerSession).ComputeAuthenticator":   "SRPComputeAuthenticator",
 	"net/http.Error":              "HTTPError",
+	"(*net/http.Response).Write":  "ResponseWrite",
 	"crypto/rand.Read":                              "RandRead",
 }
 
